@@ -210,4 +210,45 @@ example : MDS { parity := fun d => d, recon := fun c => some (let x := (c.filter
   | [x], [b0, b1], _, _ =>
     cases b0 <;> cases b1 <;> simp_all [List.filter]
 
+/-! ### the encoder model produces the layout the read path and the decoder were proved against -/
+
+/-- encodeDatFile/encodeData/encodeDataOneBatch (two loops, batches of `buf` bytes, zero fill) write
+    exactly the closed-form layout, for every file and every admissible geometry -/
+theorem enc_layout (c : EncCfg) (D : List Nat)
+    (hk : 0 < c.k) (hL : 0 < c.L) (hS : 0 < c.S) (hb : 0 < c.buf) (hbL : c.buf ∣ c.L) (hbS : c.buf ∣ c.S) :
+    (List.range c.k).map (dataShard c D) = layout c.k c.L c.S c.strict D := by
+  unfold layout
+  apply List.map_congr_left
+  intro i _
+  exact dataShard_eq_layout c D i hk hL hS hb hbL hbS
+
+example : (0 < 10 ∧ 0 < 50 ∧ 0 < 10 ∧ 0 < 5) ∧ (5 ∣ 50) ∧ (5 ∣ 10) := by decide
+
+/-- read path over the shards the ENCODER MODEL writes -/
+theorem ec_read_exact_encoded_partial (c : EncCfg) (D : List Nat) (off size : Nat)
+    (hk : 0 < c.k) (hL : 0 < c.L) (hS : 0 < c.S) (hb : 0 < c.buf) (hbL : c.buf ∣ c.L) (hbS : c.buf ∣ c.S)
+    (hD : off + size ≤ D.length) (hg : rowCountAmbiguous c.k c.L c.S c.strict D.length = false) :
+    ecRead c.k c.L c.S ((List.range c.k).map (dataShard c D)) off size = some ((D.drop off).take size) := by
+  rw [enc_layout c D hk hL hS hb hbL hbS]
+  exact ec_read_exact_partial c.k c.L c.S c.strict D off size hk hL hS hD hg
+
+/-- decoder (guard operator `ds`) over the shards the ENCODER MODEL writes -/
+theorem ec_decode_exact_encoded_partial (c : EncCfg) (ds : Bool) (D : List Nat)
+    (hk : 0 < c.k) (hL : 0 < c.L) (hS : 0 < c.S) (hb : 0 < c.buf) (hbL : c.buf ∣ c.L) (hbS : c.buf ∣ c.S)
+    (hx : c.strict = ds ∨ ¬ (0 < D.length ∧ D.length % (c.k * c.L) = 0)) :
+    decode c.k c.L c.S ds ((List.range c.k).map (dataShard c D)) D.length = some D := by
+  rw [enc_layout c D hk hL hS hb hbL hbS]
+  apply decode_layout c.k c.L c.S c.strict ds D hk hL hS
+  rcases hx with h | h
+  · rw [h]
+  · have := large_rows_agree c.k c.L D.length (Nat.mul_pos hk hL) h
+    cases hs : c.strict <;> cases ds <;> simp_all
+
+/-- the production call `generateEcFiles(base, 256*1024, ErasureCodingLargeBlockSize, ErasureCodingSmallBlockSize)`
+    satisfies the hypotheses of `enc_layout` -/
+theorem enc_layout_production (strict : Bool) (D : List Nat) :
+    (List.range genK).map (dataShard ⟨genK, genL, genS, 256 * 1024, strict⟩ D) = layout genK genL genS strict D :=
+  enc_layout ⟨genK, genL, genS, 256 * 1024, strict⟩ D (show 0 < genK by decide) (show 0 < genL by decide) (show 0 < genS by decide)
+    (show 0 < 256 * 1024 by decide) (show (256 * 1024) ∣ genL by decide) (show (256 * 1024) ∣ genS by decide)
+
 end SwV.Props.C06
